@@ -161,6 +161,27 @@ class RePattern:
     pattern: str
 
 
+@dataclass(eq=False)
+class Opaque:
+    """A value the analysing rule supplies in place of a library object (a parsed AST, a generated text, a code object, a
+    compiled function ...).  `attrs` are readable attributes, `methods` maps a method name to a callable
+    (interp, args, kwargs, site) -> value."""
+    tag: str
+    payload: object = None
+    attrs: dict = field(default_factory=dict)
+    methods: dict = field(default_factory=dict)
+
+    def __repr__(self):
+        return f"<{self.tag} {self.payload!r}>" if self.payload is not None else f"<{self.tag}>"
+
+
+@dataclass(eq=False)
+class PartialVal:
+    func: object
+    args: list
+    kwargs: dict
+
+
 @dataclass(frozen=True)
 class ABytes:
     """<text>.encode(codec, errors): the bytes of an opaque string."""
@@ -324,7 +345,8 @@ class ModuleVal:
 BUILTINS = {"str", "repr", "len", "sorted", "list", "tuple", "set", "isinstance", "type", "map",
             "enumerate", "zip", "range", "any", "all", "int", "float", "bool", "print", "reversed",
             "frozenset", "dict", "getattr", "hasattr", "id", "hash", "min", "max", "sum", "ascii",
-            "format", "iter", "next", "filter", "abs"}
+            "format", "iter", "next", "filter", "abs", "setattr", "delattr", "compile", "exec", "eval", "globals", "locals", "callable",
+            "vars", "round", "divmod", "pow", "object"}
 EXC_BUILTINS = {"RuntimeError", "ValueError", "TypeError", "KeyError", "NotImplementedError",
                 "Exception", "AssertionError", "AttributeError", "IndexError", "SyntaxError"}
 
@@ -527,6 +549,8 @@ class Interp:
         raise ReturnSig(self.eval(st.value, env) if st.value is not None else None)
 
     def st_Raise(self, st, env):
+        if st.exc is None and self.__dict__.get("_exc_stack"):
+            raise self._exc_stack[-1]           # bare `raise` inside a handler
         name, text = "Exception", ""
         if st.exc is not None:
             v = self.eval(st.exc, env)
@@ -560,6 +584,8 @@ class Interp:
             o = self.eval(t.value, env)
             if isinstance(o, Obj):
                 o.attrs[t.attr] = v
+                if getattr(self, "trace", None) is not None:
+                    self.trace.append(("store", o, t.attr, v, env.mod.site(t)))
             elif isinstance(o, TokenVal):
                 o.attrs[t.attr] = v
             elif isinstance(o, ClassVal):
@@ -690,7 +716,15 @@ class Interp:
                         or "BaseException" in names:
                     if h.name:
                         env.local[h.name] = ExcVal(r.exc_name, [])
-                    self.exec_block(h.body, env)
+                    stack_ = self.__dict__.setdefault("_exc_stack", [])
+                    stack_.append(r)
+                    try:
+                        self.exec_block(h.body, env)
+                    except RaiseSig:
+                        self.exec_block(st.finalbody, env)
+                        raise
+                    finally:
+                        stack_.pop()
                     break
             else:
                 self.exec_block(st.finalbody, env)
@@ -738,15 +772,18 @@ class Interp:
         def is_yield(s_):
             return isinstance(s_, ast.Expr) and isinstance(s_.value, ast.Yield)
         body = list(f.node.body)
-        pre, post, yielded = [], [], None
+        pre, post, yielded, fin = [], [], None, []
         for i_, s_ in enumerate(body):
             if is_yield(s_):
                 pre, post, yielded = body[:i_], body[i_ + 1:], s_.value.value
                 break
             if isinstance(s_, ast.Try) and any(is_yield(x_) for x_ in s_.body):
+                if s_.handlers:
+                    raise Unsupported(f"@contextmanager {f.node.name} catches exceptions of its block ({env.mod.site(st)})")
                 j_ = next(k_ for k_, x_ in enumerate(s_.body) if is_yield(x_))
                 pre = body[:i_] + s_.body[:j_]
                 post = s_.body[j_ + 1:] + s_.finalbody + body[i_ + 1:]
+                fin = s_.finalbody
                 yielded = s_.body[j_].value.value
                 break
         else:
@@ -754,7 +791,11 @@ class Interp:
         self.exec_block(pre, fenv)
         if item.optional_vars is not None:
             self.assign(item.optional_vars, self.eval(yielded, fenv) if yielded is not None else None, env)
-        self.exec_block(st.body, env)
+        try:
+            self.exec_block(st.body, env)
+        except RaiseSig:
+            self.exec_block(fin, fenv)          # what a `finally` around the yield still does; the rest is skipped
+            raise
         self.exec_block(post, fenv)
 
     def st_Global(self, st, env):
@@ -946,6 +987,12 @@ class Interp:
                         return EnumVal(o.name, attr)
                 raise Unsupported(f"enum {o.name} has no member {attr} ({site})")
             return self.class_attr(o, attr, None, site)
+        if isinstance(o, Opaque):
+            if attr in o.attrs:
+                return o.attrs[attr]
+            if attr in o.methods:
+                return BoundMethod(o, attr)
+            raise Unsupported(f"attribute {attr} of {o.tag} ({site})")
         if isinstance(o, PVal):
             return self.p_attr(o, attr, site)
         if isinstance(o, TokenVal):
@@ -1017,7 +1064,16 @@ class Interp:
                     if "classmethod" in decos:
                         return FuncVal(c.mod, st, cv, c)
                     if decos and any(d for d in decos) and not all(d in ("contextmanager", "contextlib.contextmanager") for d in decos):
-                        raise Unsupported(f"decorated method {c.name}.{attr} ({decos}) ({site})")
+                        # a decorator of the package: apply it to the plain function; the result is what the class holds
+                        f_ = FuncVal(c.mod, st, None, c)
+                        for d_ in reversed(st.decorator_list):
+                            dv = self.eval(d_, Env(c.mod, {}))
+                            if not isinstance(dv, (FuncVal, PartialVal)):
+                                raise Unsupported(f"decorated method {c.name}.{attr} ({decos}) ({site})")
+                            f_ = self.apply(dv, [f_], {}, site)
+                        if isinstance(f_, FuncVal):
+                            return FuncVal(f_.mod, f_.node, inst, f_.owner, f_.closure) if inst is not None else f_
+                        raise Unsupported(f"decorator of {c.name}.{attr} does not return a function ({site})")
                     return FuncVal(c.mod, st, inst, c)
                 if (isinstance(st, ast.Assign) and any(isinstance(t, ast.Name) and t.id == attr for t in st.targets)) or (
                         isinstance(st, ast.AnnAssign) and isinstance(st.target, ast.Name) and st.target.id == attr
@@ -1383,6 +1439,17 @@ class Interp:
             if _to_expr(a) is None or _to_expr(b) is None:
                 return False
             return self.num_compare("Eq", a, b, site)
+        if isinstance(a, (ADigest, ABytes)) or isinstance(b, (ADigest, ABytes)):
+            if getattr(self, "trace", None) is not None:
+                self.trace.append(("compare", a, b, site))
+            if type(a) is type(b):
+                return a == b            # digests of different opaque texts are different values
+            if isinstance(a, (Sym, Tmpl)) or isinstance(b, (Sym, Tmpl)):
+                # a digest against stored text (e.g. the class-level default ""): never equal to a real digest's text
+                return False
+            return False
+        if isinstance(a, Opaque) or isinstance(b, Opaque):
+            return a is b
         if isinstance(a, Sym) and a.overflow and (_isnum(b) or (isinstance(b, Sym) and b.overflow)):
             a = a.as_inf()
         if isinstance(b, Sym) and b.overflow and _isnum(a):
@@ -1399,6 +1466,8 @@ class Interp:
         if isinstance(a, Sym) and isinstance(b, Sym):
             if a.kind == "ident" and b.kind == "ident":
                 return a.name == b.name
+            if getattr(self, "trace", None) is not None and a.kind == "str" and b.kind == "str":
+                self.trace.append(("compare", a, b, site))
             if a.uid == b.uid:
                 return True
             return self.choose(f"equal({a.src},{b.src}) at {site}")
@@ -1570,6 +1639,8 @@ class Interp:
             return self.choose(f"truthy({v.src}) at {what}")
         if isinstance(v, ExtVal):
             return True
+        if isinstance(v, (ADigest, Opaque, PartialVal)):
+            return True             # a digest text is never empty; stand-ins are objects
         if isinstance(v, MinLen):
             if v.n > 0:
                 return True
@@ -1687,14 +1758,23 @@ class Interp:
     def apply(self, f, args, kwargs, site, node=None):
         if isinstance(f, FuncVal):
             return self.call(f, args, kwargs, site)
+        if isinstance(f, PartialVal):
+            return self.apply(f.func, list(f.args) + list(args), {**f.kwargs, **kwargs}, site, node)
         if isinstance(f, Builtin):
+            hook = getattr(self, "builtin_hooks", {}).get(f.name)
+            if hook is not None:
+                return hook(self, args, kwargs, site)
             return self.builtin(f.name, args, kwargs, site)
+        if isinstance(f, ClassVal) and f.name in getattr(self, "class_hooks", {}):
+            return self.class_hooks[f.name](self, args, kwargs, site)
         if isinstance(f, BoundMethod):
             return self.method(f.recv, f.name, args, kwargs, site)
         if isinstance(f, ClassVal):
             return self.instantiate(f, args, kwargs, site)
         if isinstance(f, ExtVal):
             return self.external(f, args, kwargs, site)
+        if isinstance(f, Opaque) and "__call__" in f.methods:
+            return f.methods["__call__"](self, args, kwargs, site)
         raise Unsupported(f"call of {type(f).__name__} at {site}")
 
     def instantiate(self, cv: ClassVal, args, kwargs, site):
@@ -2248,6 +2328,18 @@ class Interp:
         if name in ("id", "hash"):
             self.entropy.append((name + "()", site))
             raise Unsupported(f"{name}() at {site}: process-dependent value")
+        if name == "setattr" and len(args) == 3 and isinstance(args[1], Tmpl) and args[1].is_literal():
+            o = args[0]
+            if isinstance(o, (Obj, TokenVal)):
+                o.attrs[args[1].text()] = args[2]
+                if isinstance(o, Obj) and getattr(self, "trace", None) is not None:
+                    self.trace.append(("store", o, args[1].text(), args[2], site))
+                return None
+            raise Unsupported(f"setattr on {type(o).__name__} at {site}")
+        if name == "callable" and len(args) == 1:
+            return isinstance(args[0], (FuncVal, PartialVal, BoundMethod, Builtin, ClassVal)) or (isinstance(args[0], Opaque) and "__call__" in args[0].methods)
+        if name == "vars" and len(args) == 1 and isinstance(args[0], Obj):
+            return ADict(dict(args[0].attrs))
         if name == "getattr":
             nm = args[1]
             if isinstance(nm, Tmpl) and nm.is_literal():
@@ -2265,6 +2357,10 @@ class Interp:
 
     def method(self, recv, name, args, kwargs, site):
         args = [x.value if isinstance(x, _Tagged) else x for x in args]
+        if isinstance(recv, Opaque):
+            if name in recv.methods:
+                return recv.methods[name](self, args, kwargs, site)
+            raise Unsupported(f"method {name} of {recv.tag} at {site}")
         if isinstance(recv, AHash):
             if name == "update" and len(args) == 1:
                 recv.data.append(args[0])
@@ -2617,6 +2713,15 @@ class Interp:
             return AHash(algo.lower(), rest[:1])
         if q in ("binascii.hexlify",) and args and isinstance(args[0], ADigest) and args[0].kind == "bytes":
             return self.method(args[0], "hex", [], {}, site)
+        if q in ("functools.partial", "partial") and args:
+            return PartialVal(args[0], list(args[1:]), dict(kwargs))
+        if q in ("functools.wraps", "wraps", "functools.update_wrapper"):
+            if q.endswith("update_wrapper"):
+                return args[0]
+            ident = ast.parse("lambda _f: _f", mode="eval").body
+            return self.ev_Lambda(ident, Env(next(iter(self.src.modules.values())), {}))
+        if q in ("types.MappingProxyType", "MappingProxyType") and len(args) == 1:
+            return args[0]            # a read-only view: the same keys and values
         if q in ("typing.cast",) and len(args) == 2:
             return args[1]
         if q in ("math.ldexp", "ldexp") and len(args) == 2 and isinstance(args[0], ABits) and isinstance(args[1], int):
